@@ -1,12 +1,12 @@
 #!/bin/bash
 # usage: selftest/sweep.sh <tier> <seed> [<seed> ...]   - runs every registered check, prints one status line each
 TIER="$1"; shift
-cd /verif
+cd "$(dirname "$0")/.."   # (the copy this script belongs to: /verif, or a vp-run snapshot)
 for s in "$@"; do
   for p in C01 C02 C03 C04 C05 C06 C07 C08 C09 C10 C11 C12 C13 C14 C15 C16 C17 C18 C19 C20; do
     t0=$(date +%s)
-    VERIF_EVIDENCE_DIR=/tmp/sweep_evid VERIF_REPLAY_DIR=/tmp/sweep_replays VERIF_SEED=$s ./check $p --tier $TIER > /tmp/sweep_$p.log 2>&1; rc=$?
+    VERIF_EVIDENCE_DIR=/tmp/sweep_evid VERIF_REPLAY_DIR=/tmp/sweep_replays VERIF_SEED=$s ./check $p --tier $TIER > /tmp/sweep_${TIER}_$p.log 2>&1; rc=$?
     t1=$(date +%s)
-    echo "seed=$s $p exit=$rc $((t1-t0))s $(grep -cE '^KNOWN-FINDING' /tmp/sweep_$p.log) known | $(grep -E ' x |INCONCLUSIVE' /tmp/sweep_$p.log | head -3 | cut -c1-160 | tr '\n' ';')"
+    echo "seed=$s $p exit=$rc $((t1-t0))s $(grep -cE '^KNOWN-FINDING' /tmp/sweep_${TIER}_$p.log) known | $(grep -E ' x |INCONCLUSIVE' /tmp/sweep_${TIER}_$p.log | head -3 | cut -c1-160 | tr '\n' ';')"
   done
 done
